@@ -95,7 +95,10 @@ fn keybuf_of(k: &Key) -> Vec<u8> {
 }
 
 fn tracked_of(c: &DiskCache) -> (usize, u64, BTreeMap<Vec<u8>, Vec<Item>>) {
-    let (n, b, items) = c.verif_snapshot().unwrap();
+    // a poisoned state lock (a cache call panicked while holding it) reads as an impossible snapshot
+    let Ok((n, b, items)) = c.verif_snapshot() else {
+        return (usize::MAX, u64::MAX, BTreeMap::new());
+    };
     let mut m = BTreeMap::new();
     for (k, v) in items {
         m.insert(keybuf_of(&k), v);
@@ -295,6 +298,8 @@ enum St {
 struct Ctl {
     turn: Option<usize>,
     st: Vec<St>,
+    // set when the controller gives up: every thread then runs freely to its end
+    free: bool,
 }
 
 thread_local! {
@@ -313,7 +318,7 @@ fn park(ctl: &Arc<(Mutex<Ctl>, Condvar)>, t: usize, at: St) {
     if fin {
         return;
     }
-    while g.turn != Some(t) {
+    while g.turn != Some(t) && !g.free {
         g = cv.wait(g).unwrap();
     }
 }
@@ -647,7 +652,7 @@ pub fn run(toks: &[&str]) -> Lines {
                     .collect();
                 let sched: Vec<usize> = op[2].chars().filter_map(|ch| ch.to_digit(10)).map(|d| d as usize).collect();
                 let nt = progs.len();
-                let ctl = Arc::new((Mutex::new(Ctl { turn: None, st: vec![St::Parked("start".into()); nt] }), Condvar::new()));
+                let ctl = Arc::new((Mutex::new(Ctl { turn: None, st: vec![St::Parked("start".into()); nt], free: false }), Condvar::new()));
                 let ctl_h = ctl.clone();
                 chunk_cache::verif::set_hook(Some(Box::new(move |name: &str| {
                     if let Some(t) = TID.with(|x| x.get()) {
@@ -667,7 +672,7 @@ pub fn run(toks: &[&str]) -> Lines {
                         {
                             let (m, cv) = &*ctl;
                             let mut g = m.lock().unwrap();
-                            while g.turn != Some(t) {
+                            while g.turn != Some(t) && !g.free {
                                 g = cv.wait(g).unwrap();
                             }
                         }
@@ -754,6 +759,11 @@ pub fn run(toks: &[&str]) -> Lines {
                     }
                 }
                 aux.push("S:end".into());
+                {
+                    let mut g = ctl.0.lock().unwrap();
+                    g.free = true;
+                    ctl.1.notify_all();
+                }
                 for h in handles {
                     let _ = h.join();
                 }
